@@ -160,7 +160,9 @@ func concMsg(m *Msg) *spb.ModifyRequest {
 }
 
 var stMap = map[string]spb.AFTResult_Status{"RIB": spb.AFTResult_RIB_PROGRAMMED, "FIB": spb.AFTResult_FIB_PROGRAMMED,
-	"FAILED": spb.AFTResult_FAILED, "FIB_FAILED": spb.AFTResult_FIB_FAILED}
+	"FAILED": spb.AFTResult_FAILED, "FIB_FAILED": spb.AFTResult_FIB_FAILED,
+	// statuses that complete nothing: the deprecated OK, the zero value, a number the enumeration does not define
+	"OK": spb.AFTResult_OK, "UNSET": spb.AFTResult_UNSET, "9": spb.AFTResult_Status(9)}
 
 func concResp(r *Resp) *spb.ModifyResponse {
 	switch r.K {
@@ -976,6 +978,11 @@ func Random(r *rand.Rand, n int) []Input {
 						st = "FAILED"
 					case fib && open[k] == "RIB":
 						st = []string{"FIB", "FIB", "FIB_FAILED"}[r.Intn(3)]
+					}
+					if r.Intn(9) == 0 {
+						// a result that is no verdict: the operation stays pending whatever the mode
+						rs = append(rs, Res{ID: k, St: []string{"OK", "UNSET", "9"}[r.Intn(3)]})
+						continue
 					}
 					rs = append(rs, Res{ID: k, St: st})
 					if st == "RIB" && fib {
